@@ -30,9 +30,9 @@ ASSUMPTIONS = ['fresh-object replay = the code itself without history (sequentia
                'search_results() before any search is not generated (no documented answer)']
 EXHAUSTIVE = {'quick': False, 'thorough': False}
 HASH_SEEDS = {'quick': [0], 'thorough': [0, 1, 2]}
-MINIMA = {'quick': {'returned_set_edits': 40, 'prior_sibling_cases': 30, 'returned_design_edits': 50, 'sibling_searches': 80, 'ops_compared': 1500, 'set:bigrams': 100, 'distinct_nontrivial': 150, 'repeat_results': 100,
+MINIMA = {'quick': {'stranger_calls': 50, 'returned_set_edits': 40, 'prior_sibling_cases': 30, 'returned_design_edits': 50, 'sibling_searches': 80, 'ops_compared': 1500, 'set:bigrams': 100, 'distinct_nontrivial': 150, 'repeat_results': 100,
                     'param_snapshots': 1500},
-          'thorough': {'returned_set_edits': 500, 'prior_sibling_cases': 400, 'returned_design_edits': 700, 'sibling_searches': 1000, 'ops_compared': 20000, 'set:bigrams': 150, 'distinct_nontrivial': 2000, 'repeat_results': 1500,
+          'thorough': {'stranger_calls': 600, 'returned_set_edits': 500, 'prior_sibling_cases': 400, 'returned_design_edits': 700, 'sibling_searches': 1000, 'ops_compared': 20000, 'set:bigrams': 150, 'distinct_nontrivial': 2000, 'repeat_results': 1500,
                        'param_snapshots': 20000}}
 N = {'quick': 320, 'thorough': 4000}
 CASE_TIMEOUT = {'quick': 300, 'thorough': 900}
@@ -74,7 +74,7 @@ def norm_designs(ds):
 EDITS = [0]
 
 
-def do_op(mm, op, arg, edit=False):
+def do_op(mm, op, arg, edit=False, direct=False):
   if op in ('geos_over_budget', 'geos_too_large', 'geos_must_include', 'geos_within_constraints'):
     raw = getattr(mm, op)
     out = sorted(raw)
@@ -106,8 +106,9 @@ def do_op(mm, op, arg, edit=False):
     T = set(groups[arg % len(groups)])
     return sorted(tuple(sorted(c)) for c in mm.control_group_generator(T))
   if op == 'design_within_constraints':
-    ga = mm.geo_assignments
-    n = len(ga.all)
+    # asked directly, without listing anything first (when an index is in place already, it is not touched)
+    gi = mm.data.geo_index if direct else None
+    n = len(gi) if gi is not None else len(mm.geo_assignments.all)
     if n < 2:
       return None
     T = {arg % n}
@@ -137,6 +138,8 @@ def gen_history(r):
       op = r.choice(['exhaustive_search', 'greedy_search'])
     elif u < 0.6:
       op = 'sibling_search'
+    elif u < 0.68:
+      op = 'stranger_search'
     else:
       op = r.choice(OPS[:10])
     if op == 'search_results' and not searched:
@@ -181,8 +184,30 @@ def run_case(spec):
       counters_pre = 1
   if not ties and spec['idx'] % 5 == 3 and G >= 3:
     case['params']['n_geos_max'] = r.randrange(2, G)         # binding truncation of the admitted set
+    if spec['idx'] % 2 == 0 and case['params']['iroas'] > 0:
+      # ... with a geo that may not be left out and a budget range that every single geo meets
+      ids_ = [str(i) for i in case['panel']['ids']]
+      rows_ = dict(case['elig_rows']) if case['elig_rows'] is not None else {gid: 'ctx' for gid in ids_}
+      rows_[r.choice(ids_)] = r.choice(['ct', 'c_fixed', 't_fixed'])
+      case['elig_rows'] = rows_
+      case['extra'] = {}
+      t_ = sl.Truth(case)
+      case['params'].pop('treatment_share_range', None)
+      case['params']['budget_range'] = (0.0, 3.0 * max(t_.opt_impact([gid]) for gid in t_.ids) / case['params']['iroas'])
   desc = sl.describe(case, with_frame=False)
   ops = gen_history(r)
+  if not ties and spec['idx'] % 5 == 4 and G >= 3:
+    # both size ranges and a volume tolerance given (so a direct constraint query needs no listing of its own), an
+    # unrelated object on other data used in between, then several direct constraint queries
+    kw_ = case['params']
+    for k_ in ('treatment_share_range', 'budget_range', 'n_geos_max', 'geo_ratio_tolerance'):
+      kw_.pop(k_, None)
+    kw_['treatment_geos_range'] = (1, G - 1)
+    kw_['control_geos_range'] = (1, G - 1)
+    kw_['volume_ratio_tolerance'] = r.choice([0.2, 0.5, 1.0])
+    desc = sl.describe(case, with_frame=False)
+    ops = [(r.choice(['greedy_search', 'exhaustive_search', 'count_max_designs']), 0), ('stranger_search', 2 * r.randrange(0, 3))]
+    ops += [('design_within_constraints', r.randrange(0, 1000)) for _ in range(r.randrange(3, 8))]
   if case['params'].get('n_geos_max') is not None and spec['idx'] % 2 == 1:
     # the caller re-uses the admitted set it was handed as scratch space at some point before the end of the history
     ops.insert(r.randrange(0, len(ops)), ('geos_within_constraints', 0))
@@ -203,7 +228,30 @@ def run_case(spec):
   searched_then_more = False
   seen_search = False
   sibling = None
+  stranger = None
   for op, arg in ops:
+    if op == 'stranger_search':
+      # an unrelated search object on ANOTHER data object (same number of geos, other volumes) is used in between:
+      # nothing of it may show in the answers of the object under test
+      if stranger is None:
+        r3, g3 = util.rngs(PROP, spec['seed'], spec['idx'], salt=7)
+        other_case = sl.make_case(r3, g3, G, n_dates=len(case['panel']['dates']), allow=('volume', 'ratio'), elig_extra='none')
+        other_case['params']['volume_ratio_tolerance'] = r3.choice([0.3, 1.0, 3.0])
+        ob = util.call(sl.build, other_case, None, None, True)
+        stranger = ob.value[2] if ob.ok else False
+      if stranger:
+        util.call(getattr(stranger, ['greedy_search', 'exhaustive_search', 'count_max_designs'][arg % 3]))
+        if arg % 2 == 0:
+          # ... followed by direct constraint queries on the unrelated object for every pair of single geos
+          for i_ in range(G):
+            for j_ in range(G):
+              if i_ != j_:
+                util.call(stranger.design_within_constraints, {i_}, {j_})
+        counters['stranger_calls'] += 1
+        bigrams.add(prev + '>' + op)
+        prev = op
+        log.append(op)
+      continue
     if op == 'sibling_search':
       # a second matched-markets object on the SAME data object (different admitted geos) runs a search in
       # between; it is not judged itself, but every later answer of the first object still must be the fresh one
@@ -228,7 +276,8 @@ def run_case(spec):
     if seen_search:
       searched_then_more = True
     before = dataclasses.asdict(par)
-    live = util.call(do_op, mm, op, arg, arg % 3 == 0)
+    # "direct": only while no sibling object has re-indexed the shared data object (see the note on siblings below)
+    live = util.call(do_op, mm, op, arg, arg % 3 == 0, sibling is None)
     after = dataclasses.asdict(par)
     counters['param_snapshots'] += 1
     log.append(op)
